@@ -130,6 +130,9 @@ class Ctx(object):
                 d['observed'] = jsonable(observed)
             if note:
                 d['note'] = note
+            from . import attach as _attach
+            if _attach.AMB['current']:
+                d['decimal_context'] = _attach.AMB['current']
             if self.ambient and (self.ambient.get('hashseed') != '0' or self.ambient.get('cwd') != VERIF or self.ambient.get('optimize') or self.ambient.get('warnings')):
                 d['ambient'] = self.ambient
             w.append(d)
